@@ -459,6 +459,16 @@ class Interp(Hooks):
             b = self.term(e.value, d)
             if isinstance(e.slice, ast.Constant) and isinstance(e.slice.value, int):
                 return self._index(b, e.slice.value, d)
+            # children[1 - children.index(n)]: the other one of the two children of p (n is known to be one of them)
+            sl = e.slice
+            if isinstance(sl, ast.BinOp) and isinstance(sl.op, ast.Sub) and isinstance(sl.left, ast.Constant) and sl.left.value == 1 and isinstance(sl.right, ast.Call) \
+                    and isinstance(sl.right.func, ast.Attribute) and sl.right.func.attr == "index" and len(sl.right.args) == 1 and self.term(sl.right.func.value, d) == b:
+                pp_ = parse_call_term(b)
+                if pp_ and pp_[0] == "succs" and len(pp_[1]) == 1 and pp_[2] == d.epoch:
+                    n_t = self.term(sl.right.args[0], d)
+                    lo_, hi_, _ = self.deg(d, "out", pp_[1][0])
+                    if lo_ == hi_ == 2 and self._edge_known(pp_[1][0], n_t, d):
+                        return f"sibling({pp_[1][0]}, {n_t})@{pp_[2]}"
             k = self.term(e.slice, d)
             items = dict_literal_items(b)
             if items is not None and k in items and not d.has("dictmod", b):
